@@ -6,7 +6,7 @@ import gen_text
 from langbatch import run_subs, unhex_diag
 from model_lang import Model
 from runner import Failure, Outcome, h64
-from schema import (HAND, schemas, walk, o_func, o_int, o_str, o_sec, o_list, F_COMMENTS, F_IGNORE_UNKNOWN, F_NOCASE, F_DEPRECATED,
+from schema import (F_LIST, HAND, schemas, walk, o_func, o_int, o_str, o_sec, o_list, F_COMMENTS, F_IGNORE_UNKNOWN, F_NOCASE, F_DEPRECATED,
                     F_KEYSTRVAL, F_MULTI, F_TITLE, F_NO_TITLE_DUPES, F_NODEFAULT)
 
 HAND["c06"] = [
@@ -15,6 +15,8 @@ HAND["c06"] = [
     o_sec("tm", [o_int("x", 1), o_list("str", "zl", None)], F_MULTI | F_TITLE),
     o_sec("tu", [o_int("x", 1)], F_MULTI | F_TITLE | F_NO_TITLE_DUPES), o_sec("kv", [], F_KEYSTRVAL),
     o_sec("nd", [o_int("x", 1)], F_NODEFAULT), o_func("fn"), o_func("include", "include"),
+    # pointer options declared without a value-parsing callback: every assignment to them is refused (and must be reported)
+    {"k": "ptr", "n": "pnocb", "f": 0, "d": None, "cb": 0}, {"k": "ptr", "n": "plnocb", "f": F_LIST, "d": None, "cb": 0},
 ]
 
 
